@@ -408,6 +408,45 @@ def check_C07(ctx):
     exec_scenarios(ctx, TRACE_INVS["C07"], KF1_PROGS, "thread-local system inside a batch")
 
 
+def pool_stage(ctx):
+    """Pool.tla: which pool a dispatcher / a batch uses (the shared handle of builder, dispatcher and batches).
+    Exhaustive call sequences new / add_pool / add_batch / build on the model, every one of them replayed on real
+    builders (each dispatcher's probe system reports the pool it ran on), traces validated by PoolTrace."""
+    (nb, steps) = (3, 7) if ctx.quick() else (4, 8)
+    base = "SPECIFICATION Spec\nCHECK_DEADLOCK FALSE\nCONSTANTS\n  NB = %d\n  NP = 2\n  MaxSteps = %d\nINVARIANTS\n" % (nb, steps)
+    invs = ["TypeOK", "InvHasPool", "InvChildFollows", "InvTopChildren", "InvLastWins", "InvNoSilentDefault"]
+    res = tlc_mc(ctx, "MCPool", base + "".join("  %s\n" % i for i in invs + ["Emit"]), capture_replay=True)
+    if res["violated"]:
+        raise ToolError("the Pool MODEL violates %s" % res["violated"])
+    neg = tlc_mc(ctx, "MCPool", base + "  OnePoolPerTree\n")
+    if neg["violated"] != "OnePoolPerTree":
+        raise ToolError("negative control failed: Pool.tla does not refute OnePoolPerTree (the named deviation of the code)")
+    ctx.cov["states"] += res["distinct"]
+    ctx.cov["transitions"] += res["states"]
+    ctx.cov["model_runs"].append({"module": "MCPool", "constants": {"NB": nb, "NP": 2, "MaxSteps": steps}, "invariants": invs,
+                                  "states_generated": res["states"], "distinct": res["distinct"], "wall_s": res["wall_s"],
+                                  "exhaustive": True, "action_counts": res["actions"],
+                                  "negative_control": "OnePoolPerTree is refuted (a batch two levels down keeps its parent's old cell)"})
+    out = ctx.fresh("pools", "ndjson")
+    st = run_bin(ctx, "exec", ["pools", "--in", res["replay"], "--random", 300 if ctx.quick() else 5000, "--max", 4000 if ctx.quick() else 60000,
+                               "--keep", 400 if ctx.quick() else 3000, "--seed", ctx.seed, "--out", out], timeout=3000)
+    ctx.cov["impl_runs"].append({"kind": "spec->impl replay of Pool behaviours on real builders + random call sequences "
+                                         "(every dispatcher's probe reports the pool it ran on)",
+                                 "behaviours": st["behaviours"], "agree_with_model": st["agree"], "disagree": st["disagree"],
+                                 "blocks_also_validated_by_TLC": st["blocks_written"],
+                                 "probes_on_a_library_made_pool": st["probes_on_a_library_made_pool"]})
+    ctx.cov["traces_validated_against_impl"] += st["behaviours"]
+    for x in st["samples"][:1]:
+        ctx.sample({"kind": "call sequence on real builders and where each dispatcher's probe ran (0 = a pool made by the library)", "case": x})
+    if st["disagree"]:
+        ctx.note("%d pool behaviours differ from Pool.tla's prediction; judged by PoolTrace" % st["disagree"])
+    n = validate_blocks(ctx, "PoolTrace", out, ["InvC11pool", "InvHasPool", "InvChildFollows", "InvLastWins"], classify=None)
+    if st["disagree"]:
+        raise ToolError("replay disagrees with MCPool in %d runs but PoolTrace accepts the traces: spec/harness inconsistency" % st["disagree"])
+    ctx.assumptions.append("the pool a system ran on is observed through the worker thread's name (user pools are built with named threads; "
+                           "anything else counts as a pool made by the library)")
+
+
 def check_C11(ctx):
     # liveness of the design: every width, W = Width terminates with all systems inside run together;
     # negative control W = Width-1 must stall (otherwise the model would be vacuous)
@@ -423,6 +462,7 @@ def check_C11(ctx):
             raise ToolError("negative control failed: Rendezvous with W < Width does not stall (width %d)" % width)
         ctx.cov["model_runs"].append({"module": "Rendezvous", "Width": width, "W": width, "properties": ["Terminates (liveness, WF)", "AllTogether"],
                                       "distinct": res["distinct"], "negative_control_W": width - 1, "negative_control": "stalls as required"})
+    pool_stage(ctx)
     out = ctx.fresh("rv", "ndjson")
     st = run_bin(ctx, "exec", ["rendezvous", "--seed", ctx.seed, "--out", out, "--reps", 3 if ctx.quick() else 10,
                                "--wmax", 16], timeout=3000)
@@ -695,6 +735,9 @@ def replay(ctx, path):
     module = "ShredTrace"
     if ctx.prop == "C11":
         module, invs = "RendezvousTrace", ["InvC11"]
+        with open(path) as f:
+            if '"pnew"' in f.read():
+                module, invs = "PoolTrace", ["InvC11pool", "InvHasPool", "InvChildFollows", "InvLastWins"]
     res = tlc_trace(ctx, module, path, invs)
     if not res["accepted"]:
         raise Violation(ctx.prop, "invariant %s fails on replay" % res["violated"], path)
